@@ -45,9 +45,9 @@ type Opt struct {
 
 type Offset struct{ at string }
 
-func NewOffset() Offset            { return Offset{} }
-func (o Offset) AtStart() Offset   { o.at = "start"; return o }
-func (o Offset) AtEnd() Offset     { o.at = "end"; return o }
+func NewOffset() Offset          { return Offset{} }
+func (o Offset) AtStart() Offset { o.at = "start"; return o }
+func (o Offset) AtEnd() Offset   { o.at = "end"; return o }
 
 type (
 	GroupBalancer    struct{ name string }
@@ -68,33 +68,33 @@ func NoAck() Acks                              { return Acks{"no"} }
 func LeaderAck() Acks                          { return Acks{"leader"} }
 func AllISRAcks() Acks                         { return Acks{"all"} }
 
-func SeedBrokers(b ...string) Opt                   { return Opt{"SeedBrokers", b} }
-func ClientID(id string) Opt                        { return Opt{"ClientID", id} }
-func WithLogger(l any) Opt                          { return Opt{"WithLogger", nil} }
-func SASL(m ...sasl.Mechanism) Opt                  { return Opt{"SASL", nil} }
-func DialTLSConfig(c *tls.Config) Opt               { return Opt{"DialTLSConfig", nil} }
-func ConsumerGroup(g string) Opt                    { return Opt{"ConsumerGroup", g} }
-func ConsumeTopics(t ...string) Opt                 { return Opt{"ConsumeTopics", t} }
-func FetchMaxWait(d time.Duration) Opt              { return Opt{"FetchMaxWait", d} }
-func AutoCommitMarks() Opt                          { return Opt{"AutoCommitMarks", true} }
-func MaxConcurrentFetches(n int) Opt                { return Opt{"MaxConcurrentFetches", n} }
-func FetchMaxBytes(n int32) Opt                     { return Opt{"FetchMaxBytes", n} }
-func FetchMinBytes(n int32) Opt                     { return Opt{"FetchMinBytes", n} }
-func AutoCommitInterval(d time.Duration) Opt        { return Opt{"AutoCommitInterval", d} }
-func SessionTimeout(d time.Duration) Opt            { return Opt{"SessionTimeout", d} }
-func HeartbeatInterval(d time.Duration) Opt         { return Opt{"HeartbeatInterval", d} }
-func BlockRebalanceOnPoll() Opt                     { return Opt{"BlockRebalanceOnPoll", true} }
-func ConsumeResetOffset(o Offset) Opt               { return Opt{"ConsumeResetOffset", o} }
-func Balancers(b ...GroupBalancer) Opt              { return Opt{"Balancers", b} }
-func DefaultProduceTopic(t string) Opt              { return Opt{"DefaultProduceTopic", t} }
-func MaxBufferedRecords(n int) Opt                  { return Opt{"MaxBufferedRecords", n} }
-func ProducerBatchMaxBytes(n int32) Opt             { return Opt{"ProducerBatchMaxBytes", n} }
-func ProducerLinger(d time.Duration) Opt            { return Opt{"ProducerLinger", d} }
-func AllowAutoTopicCreation() Opt                   { return Opt{"AllowAutoTopicCreation", true} }
-func RecordRetries(n int) Opt                       { return Opt{"RecordRetries", n} }
+func SeedBrokers(b ...string) Opt                        { return Opt{"SeedBrokers", b} }
+func ClientID(id string) Opt                             { return Opt{"ClientID", id} }
+func WithLogger(l any) Opt                               { return Opt{"WithLogger", nil} }
+func SASL(m ...sasl.Mechanism) Opt                       { return Opt{"SASL", nil} }
+func DialTLSConfig(c *tls.Config) Opt                    { return Opt{"DialTLSConfig", nil} }
+func ConsumerGroup(g string) Opt                         { return Opt{"ConsumerGroup", g} }
+func ConsumeTopics(t ...string) Opt                      { return Opt{"ConsumeTopics", t} }
+func FetchMaxWait(d time.Duration) Opt                   { return Opt{"FetchMaxWait", d} }
+func AutoCommitMarks() Opt                               { return Opt{"AutoCommitMarks", true} }
+func MaxConcurrentFetches(n int) Opt                     { return Opt{"MaxConcurrentFetches", n} }
+func FetchMaxBytes(n int32) Opt                          { return Opt{"FetchMaxBytes", n} }
+func FetchMinBytes(n int32) Opt                          { return Opt{"FetchMinBytes", n} }
+func AutoCommitInterval(d time.Duration) Opt             { return Opt{"AutoCommitInterval", d} }
+func SessionTimeout(d time.Duration) Opt                 { return Opt{"SessionTimeout", d} }
+func HeartbeatInterval(d time.Duration) Opt              { return Opt{"HeartbeatInterval", d} }
+func BlockRebalanceOnPoll() Opt                          { return Opt{"BlockRebalanceOnPoll", true} }
+func ConsumeResetOffset(o Offset) Opt                    { return Opt{"ConsumeResetOffset", o} }
+func Balancers(b ...GroupBalancer) Opt                   { return Opt{"Balancers", b} }
+func DefaultProduceTopic(t string) Opt                   { return Opt{"DefaultProduceTopic", t} }
+func MaxBufferedRecords(n int) Opt                       { return Opt{"MaxBufferedRecords", n} }
+func ProducerBatchMaxBytes(n int32) Opt                  { return Opt{"ProducerBatchMaxBytes", n} }
+func ProducerLinger(d time.Duration) Opt                 { return Opt{"ProducerLinger", d} }
+func AllowAutoTopicCreation() Opt                        { return Opt{"AllowAutoTopicCreation", true} }
+func RecordRetries(n int) Opt                            { return Opt{"RecordRetries", n} }
 func ProducerBatchCompression(c ...CompressionCodec) Opt { return Opt{"ProducerBatchCompression", c} }
-func RequiredAcks(a Acks) Opt                       { return Opt{"RequiredAcks", a} }
-func DisableIdempotentWrite() Opt                   { return Opt{"DisableIdempotentWrite", true} }
+func RequiredAcks(a Acks) Opt                            { return Opt{"RequiredAcks", a} }
+func DisableIdempotentWrite() Opt                        { return Opt{"DisableIdempotentWrite", true} }
 
 type callback = func(context.Context, *Client, map[string][]int32)
 
